@@ -1173,6 +1173,12 @@ func TestVerif_C37(t *testing.T) {
 				x.sub = k
 				x.check(in.b, "crafted:"+in.name)
 				x.ev["crafted_inputs"]++
+				hx := in.b
+				if len(hx) > 48 {
+					hx = hx[:48]
+				}
+				var m Message
+				r.Sample(map[string]any{"origin": "crafted:" + in.name, "len": len(in.b), "first_bytes_hex": fmt.Sprintf("%x", hx), "unpack_error": fmt.Sprint(m.Unpack(in.b))})
 			}
 			for kind, v := range x.ev {
 				r.Event(kind, v)
@@ -1195,6 +1201,10 @@ func TestVerif_C37(t *testing.T) {
 		}
 		x.ev["mutated_inputs"]++
 		x.check(b, "mutated:"+origin)
+		if k == 0 && x.c.Index < 3 && len(b) <= 200 {
+			var m Message
+			r.Sample(map[string]any{"origin": "mutated:" + origin, "len": len(b), "bytes_hex": fmt.Sprintf("%x", b), "unpack_error": fmt.Sprint(m.Unpack(b))})
+		}
 	})
 
 	// 3. every truncation of a message
